@@ -228,6 +228,29 @@ def main():
     # Kani
     bounded = []
     kani_info = []
+    # bounded stand-in (DESIGN 2.5): a unit the verifier could not decide (construct outside Verus' reach, lost anchor)
+    # gets its executable oracles run on the real crate over a small grid.  A failing input is a violation with a
+    # concrete replay; finding nothing proves nothing and the unit stays undecided.
+    bounded_found = []
+    if not a.no_kani:
+        try:
+            import cex as cexmod
+            for name in P['units']:
+                r, vac, err = unit_results[name]
+                if not (err or (r is not None and r.undecided)):
+                    continue
+                for g in cexmod.groups_for_unit(name):
+                    res = cexmod.run_group(g)
+                    gname = os.path.basename(g['file'])
+                    bounded.append(dict(harness='cex/' + gname, bound='small input grid, see the file', status='failed' if res['found'] else 'no failing input',
+                                        reason='unit %s undecided by Verus' % name))
+                    if res['found']:
+                        fl = verusrun.Failure('bounded.%s' % gname[:-3], 'bounded', 'bounded stand-in found a failing input on the real code (unit %s is undecided by Verus)' % name,
+                                              '', res['text'], gname)
+                        bounded_found.append(fl)
+                        violations.append((fl, None, True))
+        except Exception as e:
+            undecided.append('bounded stand-in: %s' % e)
     if kres:
         for h in kres['harnesses']:
             kani_info.append({k: h[k] for k in ('name', 'group', 'complete', 'bound', 'status', 'wall_s', 'checks', 'failed_checks')})
@@ -307,7 +330,9 @@ def main():
         for fl, r, in_base in violations:
             extra = ''
             cex = None
-            if not a.no_kani:
+            if fl.kind == 'bounded':
+                cex = dict(found=True, text=fl.rendered)
+            elif not a.no_kani:
                 try:
                     cex = kanirun.search_counterexample(pid, fl)
                 except Exception as e:      # best effort; never turns a violation into an error
